@@ -93,7 +93,18 @@ fn observe(step: usize, c: &Value, targets: &[String], counters: &[Arc<Counter>]
                 }
                 Some(d) => APPENDERS.iter().map(|a| lines(&format!("{}/{}.log", d, a))).collect(),
             };
+            let handled_before = HANDLED.load(Ordering::SeqCst);
             log::log!(target: t.as_str(), level(l), "m");
+            // with init_config_with_err_handler the first appender fails: the handler given there hears of every failed
+            // delivery exactly once
+            if counters[0].fail.load(Ordering::SeqCst) {
+                let failed = counters[0].n.load(Ordering::SeqCst);
+                let handled = HANDLED.load(Ordering::SeqCst) - handled_before;
+                if failed != handled {
+                    return Some(json!({"step": step, "what": "calls of the error handler given to init_config_with_err_handler", "target": t, "level": l,
+                                       "expected": failed, "actual": handled}));
+                }
+            }
             let got: Vec<usize> = match file_dir {
                 None => counters.iter().map(|c| c.n.load(Ordering::SeqCst)).collect(),
                 Some(d) => APPENDERS.iter().enumerate().map(|(i, a)| lines(&format!("{}/{}.log", d, a)) - before[i]).collect(),
@@ -107,6 +118,8 @@ fn observe(step: usize, c: &Value, targets: &[String], counters: &[Arc<Counter>]
     }
     None
 }
+
+static HANDLED: std::sync::atomic::AtomicUsize = std::sync::atomic::AtomicUsize::new(0);
 
 fn lines(p: &str) -> usize {
     std::fs::read(p).map(|b| b.iter().filter(|x| **x == b'\n').count()).unwrap_or(0)
@@ -126,7 +139,16 @@ pub fn main(args: &[String]) {
         "init_config" => handle = Some(log4rs::init_config(build_cfg(steps[0], &counters)).expect("init")),
         "init_with_handler" => {
             handle = Some(
-                log4rs::config::init_config_with_err_handler(build_cfg(steps[0], &counters), Box::new(|_| {})).expect("init"),
+                {
+                    counters[0].fail.store(true, Ordering::SeqCst);
+                    log4rs::config::init_config_with_err_handler(
+                        build_cfg(steps[0], &counters),
+                        Box::new(|_| {
+                            HANDLED.fetch_add(1, Ordering::SeqCst);
+                        }),
+                    )
+                    .expect("init")
+                },
             )
         }
         "init_raw" => {
